@@ -173,6 +173,15 @@ class LibsModel:
             els = [self.iter_item(interp, st, a, None, None) for a in args]
             els = [e for e in els if e is not None]
             return AV(ty='generator', elem=join_all(els) if els else None, deps=d, maybe_empty=True)
+        if qual == 'itertools.accumulate' and args:
+            fn = args[1] if len(args) > 1 else kwargs.get('func')
+            is_add = fn is None or (fn.ty == 'ext' and fn.qual in ('operator.add', 'operator.iadd', 'numpy.add'))
+            x = args[0]
+            if is_add and x.ty == 'ndarray' and 'initial' not in kwargs:
+                # running sum of the items along the leading axis: the rows of np.cumsum(x, axis=0)
+                cs = self.np_reduce(interp, st, 'cumsum', [x], {'axis': const(0)}, node)
+                return AV(ty='generator', elem=self.iter_item(interp, st, cs, None, None), deps=d, accumulate_of=x)
+            return AV(ty='generator', elem=AV(deps=d), deps=d)
         if qual == 'itertools.compress':
             el = self.iter_item(interp, st, args[0], None, None)
             return AV(ty='generator', elem=el, deps=d)
